@@ -76,14 +76,25 @@ package node
 // result only where the caller can take one; anything else can be fetched by the VM as it stands.
 //@ pred descOnly(r bytecode.Type, sel int) bool := bcop(r) == 0 && (sel != 0 ==> bck(r, 0) == 0 && bca(r, 0) == 0) && (sel != 1 ==> bck(r, 1) == 0 && bca(r, 1) == 0) && (sel != 2 ==> bck(r, 2) == 0 && bca(r, 2) == 0)
 //@ pred operandOK(r bytecode.Type, sel int, ds []value.Type) bool := bck(r, sel) == bytecode.AddrInv || bck(r, sel) == bytecode.AddrTmp || fetchable(bck(r, sel), bca(r, sel), ds)
+// AST well-formedness (class typing of the tree): expression slots hold expression nodes. wfAST is a
+// recursive predicate; each method states its one-level unfolding as a definitional assumption.
+// That the parser (and STRewrite) only build such trees is assumed (DESIGN.md section 6).
+//@ ghost wfAST(n Type) bool
+//@ pred isExpr(n Type) bool := dyntype(n) == typeid[Int]() || dyntype(n) == typeid[Float]() || dyntype(n) == typeid[String]() || dyntype(n) == typeid[Bool]()
+//@     || dyntype(n) == typeid[List]() || dyntype(n) == typeid[Name]() || dyntype(n) == typeid[Local]() || dyntype(n) == typeid[Closure]() || dyntype(n) == typeid[Function]()
+//@     || dyntype(n) == typeid[Call]() || dyntype(n) == typeid[BinOp]() || dyntype(n) == typeid[UnOp]() || dyntype(n) == typeid[IndexAt]() || dyntype(n) == typeid[IndexFromTo]()
+//@     || dyntype(n) == typeid[Read]() || dyntype(n) == typeid[Write]() || dyntype(n) == typeid[Aton]() || dyntype(n) == typeid[Toa]() || dyntype(n) == typeid[Exit]()
+//@ pred exprOK(n Type) bool := isExpr(n) && wfAST(n)
 //@ type ByteCoder.byteCode [C05,C12]
 //@   params self, srcsel, fl, cr
 //@   requires[sel] 0 <= srcsel && srcsel <= 2
+//@   requires[ast] wfAST(self)
 //@   requires[cr]  crOK(cr)
 //@   modifies *cr.CS, allelems(*cr.CS), *cr.DS, allelems(*cr.DS), mapof(*cr.Dbg)
 //@   ensures[K2_code]  csKept(cr) && csNewWF(cr)
 //@   ensures[K2_data]  dsKept(cr) && crOK(cr)
 //@   ensures[K1_desc]  descOnly(result, srcsel) && operandOK(result, srcsel, *cr.DS) && bck(result, srcsel) != bytecode.AddrImm
+//@   ensures[K1_expr]  isExpr(self) ==> bck(result, srcsel) != bytecode.AddrInv
 //@   ensures[K1_tmp]   bck(result, srcsel) == bytecode.AddrTmp ==> !fl.Data().ForbidTemp && (fl.Data().OpDepth > 0 || fl.Data().AcceptTemp || fl.Data().Discard)
 //
 //@ func (Int).byteCode [C05,C12] implements ByteCoder.byteCode
@@ -95,13 +106,21 @@ package node
 //@ func (Closure).byteCode [C05,C12] implements ByteCoder.byteCode
 //@ func (Read).byteCode [C05,C12] implements ByteCoder.byteCode
 //@ func (Write).byteCode [C05,C12] implements ByteCoder.byteCode
+//@   assumes[unfold] exprOK(w.Value)
 //@ func (Aton).byteCode [C05,C12] implements ByteCoder.byteCode
+//@   assumes[unfold] exprOK(a.Value)
 //@ func (Toa).byteCode [C05,C12] implements ByteCoder.byteCode
+//@   assumes[unfold] exprOK(t.Value)
 //@ func (Exit).byteCode [C05,C12] implements ByteCoder.byteCode
+//@   assumes[unfold] exprOK(e.Value)
 //@ func (IndexAt).byteCode [C05,C12] implements ByteCoder.byteCode
+//@   assumes[unfold] exprOK(i.Ary) && exprOK(i.At)
 //@ func (IndexFromTo).byteCode [C05,C12] implements ByteCoder.byteCode
+//@   assumes[unfold] exprOK(i.Ary) && exprOK(i.From) && exprOK(i.To)
 //@ func (Yield).byteCode [C05,C12] implements ByteCoder.byteCode
+//@   assumes[unfold] exprOK(y.Target)
 //@ func (Return).byteCode [C05,C12] implements ByteCoder.byteCode
+//@   assumes[unfold] exprOK(r.Target)
 //
 //@ canary func (Name).Name
 //@   ensures false
